@@ -19,6 +19,8 @@ impl From<Q8E0> for P8E0 {
 
 impl From<&Q8E0> for P8E0 {
     fn from(q_a: &Q8E0) -> Self {
+        #[cfg(softposit_verif)]
+        crate::verif_trace::qround(8, q_a.to_bits(), q_a.to_posit().to_bits() as u64);
         q_a.to_posit()
     }
 }
